@@ -220,6 +220,65 @@ def check_width(case):
     return ["nt"] if len(sizes) >= 2 else []
 
 
+def check_uniform_draws(case):
+    """Every resample draws n rows uniformly from the n data rows - whatever per-sample parameters (e.g. strongly
+    skewed sample weights) the metrics receive.  Under uniform draws the size of a group in one resample is
+    Binomial(n, n_g / n) and the unweighted selection rate a mean of n Bernoulli draws, so (Hoeffding, union bound
+    over the n_boot resamples, groups and two sides, total failure probability <= 1e-12 per case) every quantile of
+    them lies within t = sqrt(n/2 * ln(2 * n_boot * (G + 1) / 1e-12)) of its expectation."""
+    import fairlearn.metrics as fm
+    from fairlearn.metrics import MetricFrame
+
+    rs = np.random.RandomState(case["seed"])
+    n, G, n_boot = case["n"], case["groups"], case["n_boot"]
+    g = np.arange(n) % G
+    rs.shuffle(g)
+    yp = (rs.rand(n) < 0.5).astype(int)
+    yt = (rs.rand(n) < 0.5).astype(int)
+    if case["skew_by"] == "group":
+        w = np.where(g == case["heavy"] % G, float(case["skew"]), 1.0)
+    else:
+        w = np.where(yp == 1, float(case["skew"]), 1.0)
+    w = w * rs.uniform(0.9, 1.1, size=n)
+    weighted = {"selection_rate": fm.selection_rate, "mean_prediction": fm.mean_prediction,
+                "true_positive_rate": fm.true_positive_rate, "wmean": M.m_wmean}
+    metrics = {"cnt": fm.count, "sel": fm.selection_rate}
+    sp = {}
+    for i, name in enumerate(case["weighted"]):
+        metrics[f"w{i}"] = weighted[name]
+        sp[f"w{i}"] = {"sample_weight": gen.wrap_vector(case["w_kind"], w.tolist(), "default")}
+    mf = MetricFrame(metrics=metrics, y_true=yt, y_pred=yp, sensitive_features=pd.Series(g, name="sf"), sample_params=sp or None,
+                     n_boot=n_boot, ci_quantiles=list(case["quantiles"]), random_state=case["mf_seed"])
+    t = math.sqrt(n / 2.0 * math.log(2.0 * n_boot * (G + 1) / 1e-12))
+    sizes = {k: int((g == k).sum()) for k in range(G)}
+    p = float(yp.mean())
+    for qi, (ov, bg) in enumerate(zip(mf.overall_ci, mf.by_group_ci)):
+        M.need(float(ov["cnt"]) == n, f"overall_ci[{qi}] count {ov['cnt']!r} != n={n}")
+        M.need(abs(float(ov["sel"]) - p) * n <= t,
+               f"overall_ci[{qi}] of the unweighted selection rate is {float(ov['sel'])!r}; data rate {p!r}, n={n}: off by more than the "
+               f"Hoeffding bound {t / n:.3f} for uniform draws (sample weights skewed {case['skew']}x by {case['skew_by']})")
+        for k in range(G):
+            c = float(bg.loc[k, "cnt"])
+            M.need(abs(c - sizes[k]) <= t,
+                   f"by_group_ci[{qi}] size of group {k} is {c!r}; the group has {sizes[k]} of n={n} rows: off by more than the Hoeffding "
+                   f"bound {t:.1f} for uniform draws (sample weights skewed {case['skew']}x by {case['skew_by']})")
+    tags = ["nt"] if case["weighted"] else []
+    if case["weighted"]:
+        tags.append("skewed_sample_weight_present")
+    return tags
+
+
+@st.composite
+def _uniform_case(draw):
+    return {"n": draw(st.sampled_from([200, 300, 400])), "groups": draw(st.integers(2, 3)), "n_boot": draw(st.sampled_from([3, 10, 25])),
+            "quantiles": draw(st.sampled_from([[0.5], [0.1, 0.9], [0.05, 0.5, 0.95]])), "seed": draw(st.integers(0, 2**31 - 1)),
+            "mf_seed": draw(st.integers(0, 2**31 - 1)), "skew": draw(st.sampled_from([20, 1000, 1e6])),
+            "skew_by": draw(st.sampled_from(["group", "prediction"])), "heavy": draw(st.integers(0, 2)),
+            "weighted": draw(st.lists(st.sampled_from(["selection_rate", "mean_prediction", "true_positive_rate", "wmean"]),
+                                      min_size=1, max_size=2)) if draw(st.integers(0, 5)) else [],
+            "w_kind": draw(st.sampled_from(["list", "ndarray", "series"]))}
+
+
 def check_group_constant(case):
     """Predictions that are constant within each group: whatever rows a resample draws, a group's selection rate
     is its constant, so every by_group_ci entry must be exactly that constant (or NaN when the group was never
@@ -290,4 +349,6 @@ SUBS = [
         floors={"nt": 0.2}),
     Sub("group_constant_predictions", check_group_constant, strategy=_group_constant_case, quick=400, thorough=8000, shards=16,
         floors={"rare_groups>=2": 0.3}),
+    Sub("uniform_draws", check_uniform_draws, strategy=_uniform_case, quick=96, thorough=1600, shards=16, shrink_quick=False,
+        floors={"skewed_sample_weight_present": 0.3}),
 ]
